@@ -9,6 +9,7 @@ year only when its weather reaches the last day of that calendar year.
 `none` = the run ends with an error. Core Lean only; executable (driver ops `dayloop.*`).
 -/
 import HermesModel.Weather
+import HermesModel.Calendar
 namespace Hermes.DayLoop
 open Hermes.Weather
 
@@ -83,6 +84,19 @@ def initState {π : Type} (src : Source π) (store : Store π) (anjahr beginn it
   | none => none
   | some st1 => some { st1 with tagNum := itag - 1 }
 
+/-- First statement of the loop body on the first simulated day (run.go "verify start year matches
+beginn year"): the year of the calendar date of BEGINN must be the year `1900 + J` the arrays were
+loaded for (`J = StartYear − 1900` at that point); otherwise the run returns an error. -/
+def startYearOk {π : Type} (st : DState π) : Bool :=
+  match Hermes.Calendar.kalenderDate st.zeit with
+  | some (y, _, _) => y == 1900 + st.j
+  | none => false          -- KalenderDate runs off its month table (day numbers below 1): panic
+
+/-- The loop from the state `initState` built: no pass for an empty window, else the start-year
+test, then the passes. -/
+def runLoop {π : Type} (src : Source π) (ndays : Nat) (st : DState π) : Option (List (DayOut π)) :=
+  if ndays = 0 then some [] else if startYearOk st then runDays src ndays st else none
+
 /-- Whole run with a multi-year file (layouts 1, 2). -/
 def runMulti {π : Type} (recs : List (Rec π)) (anjahr cap beginn itag ndays : Nat) : Option (List (DayOut π)) :=
   match readMulti anjahr cap recs with
@@ -90,12 +104,12 @@ def runMulti {π : Type} (recs : List (Rec π)) (anjahr cap beginn itag ndays : 
   | some ms =>
     match initState (.multi cap) ms.store anjahr beginn itag with
     | none => none
-    | some st => runDays (.multi cap) ndays st
+    | some st => runLoop (.multi cap) ndays st
 
 /-- Whole run with one file per year (layout 0). -/
 def runPerYear {π : Type} (files : Nat → Option (List (Nat × π))) (anjahr beginn itag ndays : Nat) : Option (List (DayOut π)) :=
   match initState (.perYear files) {} anjahr beginn itag with
   | none => none
-  | some st => runDays (.perYear files) ndays st
+  | some st => runLoop (.perYear files) ndays st
 
 end Hermes.DayLoop
